@@ -38,6 +38,7 @@ func (s *Sym) String() string { return s.key }
 type Universe struct {
 	syms map[string]*Sym
 	list []*Sym
+	ids  map[string]int64
 }
 
 func newUniverse() *Universe { return &Universe{syms: map[string]*Sym{}} }
